@@ -7,7 +7,7 @@
    parse_expr / fold_operations run on fuel; running out of fuel is the distinct
    outcome [Panic WFuel], and Proofs/Expr.v shows it never happens. *)
 From Coq Require Import ZArith NArith List Bool Floats.
-From SV Require Import Base.Num Base.Outcome Base.Str.
+From SV Require Import Base.Num Base.Outcome Base.Str Gen.Consts.
 Import ListNotations.
 Local Open Scope res_scope.
 
@@ -67,8 +67,14 @@ Definition binding_pow (o : oper) : nat :=
   | OSub | OAdd => 1 | OMul | ODiv => 2 | ORem => 3 | OCDot => 4 | OCaret => 5
   | OFac => 0                                   (* no entry *)
   end.
-Definition BP_PREFIX_MINUS : nat := 2.          (* parse_expr(token_stream, 2.0) *)
-Definition BP_FUNCTION_ARG : nat := 5.          (* parse_expr(token_stream, 5.0) *)
+Definition BP_PREFIX_MINUS : nat := 2.          (* parse_expr(token_stream, min_bind_pow.max(2.0)) *)
+
+(* the table above is the one of the source (regenerated into Gen/Consts.v as mantissa, 10^-1) *)
+Example binding_pow_is_the_source_table :
+  map (fun o => Z.of_nat (binding_pow o) * 10)%Z [OSub; OAdd; OMul; ODiv; ORem; OCDot; OCaret]
+  = map fst [bp_sub; bp_add; bp_mul; bp_div; bp_rem; bp_cdot; bp_caret]
+  /\ map snd [bp_sub; bp_add; bp_mul; bp_div; bp_rem; bp_cdot; bp_caret] = repeat (-1)%Z 7.
+Proof. split; reflexivity. Qed.
 
 Section Expr.
   Context {T : Type} {NT : Num T}.
@@ -103,7 +109,8 @@ Section Expr.
            | Some f => [TFun f]
            | None => match cnst_of_str w with
                      | Some k => [TConst k]
-                     | None => map (fun c => TVar [c]) w
+                     | None =>                  (* a letter that names a constant (e) is that constant *)
+                       map (fun c => match cnst_of_str [c] with Some k => TConst k | None => TVar [c] end) w
                      end
            end
     end.
@@ -124,6 +131,9 @@ Section Expr.
         else if is_ascii_letter ch then
           let (w, rest') := span is_ascii_letter s in
           let* r := lex_loop f rest' in Ok (word_tokens w ++ r)
+        else if (ch =? 960)%N then let* r := lex_loop f rest in Ok (TConst KPi :: r)      (* π *)
+        else if (ch =? 964)%N then let* r := lex_loop f rest in Ok (TConst KTau :: r)     (* τ *)
+        else if (ch =? 981)%N then let* r := lex_loop f rest in Ok (TConst KPhi :: r)     (* ϕ *)
         else if (ch =? 40)%N then let* r := lex_loop f rest in Ok (TLParen :: r)
         else if (ch =? 41)%N then let* r := lex_loop f rest in Ok (TRParen :: r)
         else match oper_of_char ch with
@@ -211,13 +221,19 @@ Section Expr.
         | TRParen :: _ => Err EUnexpectedToken
         | TFun fn :: r =>
           match r with
-          | TLParen :: _ => let* (inner, r1) := parse_expr f r BP_FUNCTION_ARG in Ok (EFun fn inner, r1)
+          | TLParen :: r' =>                                    (* the argument is the parenthesised group *)
+            let* (inner, r1) := parse_expr f r' 0 in
+            match r1 with                                       (* ensure(RParen) *)
+            | TRParen :: r2 => Ok (EFun fn inner, r2)
+            | _ :: _ => Err EUnexpectedToken
+            | [] => Err EUnexpectedEndOfTokens
+            end
           | _ :: _ => Err EUnexpectedToken
           | [] => Err EUnexpectedEndOfTokens
           end
         | TOp op :: r =>
           if oper_eqb op OSub
-          then let* (v, r1) := parse_expr f r BP_PREFIX_MINUS in Ok (EPre op v, r1)
+          then let* (v, r1) := parse_expr f r (Nat.max min_bp BP_PREFIX_MINUS) in Ok (EPre op v, r1)
           else Err EUnexpectedToken
         | [] => Err EPolynomialSyntaxError
         end in
@@ -238,6 +254,11 @@ Section Expr.
   (* the patterns Expr::Number(0.) / Expr::Number(1.) compare with ==  (so -0.0 matches 0.) *)
   Definition is_num (c : T) (e : expr) : bool :=
     match e with ENum x => neqb x c | _ => false end.
+
+  Definition is_number (e : expr) : bool := match e with ENum _ => true | _ => false end.
+  (* keep_paren: the surviving operand inherits the parentheses of the folded operation *)
+  Definition keep_paren (e : expr) (paren : bool) : expr :=
+    match e with EBin o l r p => EBin o l r (if paren then true else p) | _ => e end.
 
   Fixpoint height (e : expr) : nat :=
     match e with
@@ -264,18 +285,18 @@ Section Expr.
           else Ok (EBin op l' r' paren)
         | OCaret =>
           if is_num n0 r' then Ok (ENum n1)
-          else if is_num n0 l' then Ok (ENum n0)
+          else if is_num n0 l' && is_number r' then Ok (ENum n0)      (* 0^r only for a literal r *)
           else Ok (EBin op l' r' paren)
         | OAdd =>
-          if is_num n0 l' then Ok r'
-          else if is_num n0 r' then Ok l'
+          if is_num n0 l' then Ok (keep_paren r' paren)
+          else if is_num n0 r' then Ok (keep_paren l' paren)
           else Ok (EBin op l' r' paren)
         | OSub =>
-          if is_num n0 r' then Ok l'
+          if is_num n0 r' then Ok (keep_paren l' paren)
           else if is_num n0 l' then let* r'' := fold_fuel n' r' in Ok (EPre OSub r'')
           else Ok (EBin op l' r' paren)
         | ODiv =>
-          if is_num n1 r' then Ok l'
+          if is_num n1 r' then Ok (keep_paren l' paren)
           else Ok (EBin op l' r' paren)
         | _ => Ok (EBin op l' r' paren)
         end
@@ -301,7 +322,11 @@ Section Expr.
       | EConst c => cnst_str c
       | EFun f i => func_str f ++ [40%N] ++ display i ++ [41%N]
       | EPre o v => oper_str o ++ display v
-      | EPost o v => display v ++ oper_str o
+      | EPost o v =>
+        match v with                                  (* `(-a)!` is not `-a!` *)
+        | EPre _ _ => [40%N] ++ display v ++ [41%N] ++ oper_str o
+        | _ => display v ++ oper_str o
+        end
       | EBin op l r paren =>
         let implied : option str :=
           match op with
@@ -309,7 +334,8 @@ Section Expr.
             match l, r with
             | ENum x, EVar v => Some (fmt x ++ v)
             | ENum x, EConst c => Some (fmt x ++ cnst_str c)
-            | ENum x, EBin OCaret _ _ _ => Some (fmt x ++ display r)
+            | ENum x, EBin OCaret base _ pp =>          (* not when the power starts with a bare number *)
+              if pp || negb (is_number base) then Some (fmt x ++ display r) else None
             | EVar v, ENum x => Some (v ++ fmt x)
             | EConst c, ENum x => Some (cnst_str c ++ fmt x)
             | _, _ => None
@@ -324,7 +350,13 @@ Section Expr.
           end in
         match implied with
         | Some s => wrap paren s
-        | None => wrap paren (display l ++ [32%N] ++ oper_str op ++ [32%N] ++ display r)
+        | None =>
+          let base :=                                  (* `(-x)^2` is not `-x ^ 2` *)
+            match op, l with
+            | OCaret, EPre _ _ => [40%N] ++ display l ++ [41%N]
+            | _, _ => display l
+            end in
+          wrap paren (base ++ [32%N] ++ oper_str op ++ [32%N] ++ display r)
         end
       end.
 
